@@ -60,3 +60,9 @@ def nontrivial(case):
 
 def matches_known(finding, case):
     return False
+
+
+def pre_coq(V):
+    """C10's bridge lemma depends on Validation/Model.v and therefore on the regenerated validation constants."""
+    from props import c08
+    c08.pre_coq(V)
